@@ -577,6 +577,9 @@ class VM:
         body = self.block(s.get("body"))
         first = True
         while True:
+            if s.get("condition_prebody") is not None:
+                # some frontends (C) compute the condition in a block that runs before every test, as for_stmt documents
+                self.exec_block(frame, self.block(s.get("condition_prebody")))
             if not first:
                 self.tick(frame, s)      # the header is re-tested on every iteration
             first = False
@@ -600,6 +603,8 @@ class VM:
                 return
             except _Continue:
                 pass
+            if s.get("condition_prebody") is not None:
+                self.exec_block(frame, self.block(s.get("condition_prebody")))
             self.tick(frame, s)
             if not self.truth(frame, s, s.get("condition")):
                 break
